@@ -22,7 +22,7 @@ TRANSPARENT = re.compile(
     r"(std|alloc)::boxed::Box::<T(, A)?>::(new|pin)|"
     r"(std|core)::pin::Pin::<.*>::(new|new_unchecked|as_mut|get_mut|into_inner)|"
     r"(std|core)::option::Option::<T>::(as_ref|as_mut|as_deref|cloned|copied|take|unwrap|expect|unwrap_or_default)|"
-    r"(std|core)::result::Result::<T, E>::(as_ref|as_mut|unwrap|expect)|"
+    r"(std|core)::result::Result::<T, E>::(as_ref|as_mut|unwrap|expect|map_err)|"
     r"<.* as (std|core)::future::IntoFuture>::into_future|(std|core)::future::IntoFuture::into_future|"
     r"<.* as (std|core)::iter::IntoIterator>::into_iter|(std|core)::iter::IntoIterator::into_iter|"
     r"(std|core)::slice::<impl \[T\]>::iter|(std|alloc)::vec::Vec::<T(, A)?>::(as_slice|iter|as_mut_slice)|"
